@@ -53,6 +53,9 @@
 (*                   deadlock checking on and `Done` the only stuttering    *)
 (*                   state, every behaviour ends in "done" (termination)    *)
 (*                                                                         *)
+(* Not modelled: phantom bytes and the application of relocations (the      *)
+(* driver's corpus transforms cover relocatable files metamorphically: the  *)
+(* relocated view of a re-encoded object must equal that of the plain one). *)
 (* Not asserted (the property does not fix it): a file that carries both    *)
 (* its own debug sections and a .gnu_debuglink with a wrong CRC may load P  *)
 (* or reject the link (`alt`); .debug_X and .zdebug_X of the same X in one  *)
@@ -361,6 +364,8 @@ LoadSupplementary ==
           IF to = "nofile" \/ ~files[to].present THEN Fail("nofile")
           ELSE cur' = to /\ pc' = "read" /\ ix' = 1 /\ UNCHANGED <<cfg, files, fl, buf, got, err>>
      ELSE pc' = "done" /\ UNCHANGED <<cfg, files, cur, fl, ix, buf, got, err>>
+\* final states stutter, so that deadlock checking reports every other stuck state (the constraint Emit is therefore evaluated
+\* twice per final state: the driver keys the lines)
 Done == pc = "done" /\ UNCHANGED vars
 Next == Build \/ CheckLink \/ FollowDebugLink \/ ReadSection \/ InflateGabi \/ InflateLegacy \/ LoadSupplementary \/ Done
 Spec == Init /\ [][Next]_vars
